@@ -161,6 +161,17 @@ fn custom_fragments(c: &Call, buf: &str) -> String {
     format!("of[{}] ff[{}]", of, shape(&ff))
 }
 
+/// `WrapAlgorithm::wrap` called directly, with one to five usize line widths
+/// (through `wrap()` it only ever sees two).
+fn alg_wrap(c: &Call, buf: &str, o: &Options<'static>) -> String {
+    let words: Vec<Word<'_>> = o.word_separator.find_words(buf).collect();
+    let w = c.opt.width.min(1 << 40);
+    let all = [w, w / 2, w.saturating_add(7), w / 3, w.saturating_mul(2)];
+    let n = 1 + (c.opt.ii as usize + c.opt.si as usize) % 5;
+    let lines = o.wrap_algorithm.wrap(&words, &all[..n]);
+    format!("n={n} [{}]", lines.iter().map(|l| l.len().to_string()).collect::<Vec<_>>().join(","))
+}
+
 // ---------------------------------------------------------------------------
 // Calls.
 const INDENTS: [&str; 5] = ["", "  ", "> ", "* ", "\u{3000}-"];
@@ -220,8 +231,9 @@ pub enum Kind {
     Words,
     Fragments,
     CustomFragments,
+    AlgWrap,
 }
-const KINDS: [Kind; 12] = [
+const KINDS: [Kind; 13] = [
     Kind::DisplayWidth,
     Kind::Wrap,
     Kind::Fill,
@@ -234,6 +246,7 @@ const KINDS: [Kind; 12] = [
     Kind::Words,
     Kind::Fragments,
     Kind::CustomFragments,
+    Kind::AlgWrap,
 ];
 
 #[derive(Clone, Debug, PartialEq, Eq, PartialOrd, Ord)]
@@ -315,6 +328,7 @@ fn execute(c: &Call, buf: &mut String) -> String {
             format!("ff[{}] of[{}]", shape(&ff), of)
         }
         Kind::CustomFragments => custom_fragments(c, buf),
+        Kind::AlgWrap => alg_wrap(c, buf, &o),
     }
 }
 
@@ -384,10 +398,10 @@ fn gen_opt(rng: &mut Rng, callbacks: bool) -> Opt {
 
 fn gen_call(rng: &mut Rng, n_texts: usize) -> Call {
     let kind = KINDS[rng.below(KINDS.len())];
-    let takes_callbacks = matches!(kind, Kind::Wrap | Kind::Fill | Kind::Refill | Kind::Words | Kind::WrapColumns);
+    let takes_callbacks = matches!(kind, Kind::Wrap | Kind::Fill | Kind::Refill | Kind::Words | Kind::WrapColumns | Kind::AlgWrap);
     let callbacks = takes_callbacks && rng.chance(1, 3);
     let opt = gen_opt(rng, callbacks && kind != Kind::WrapColumns);
-    let fault_at = if opt.uses_callbacks() && matches!(kind, Kind::Wrap | Kind::Fill | Kind::Refill | Kind::Words) && rng.chance(1, 2) {
+    let fault_at = if opt.uses_callbacks() && matches!(kind, Kind::Wrap | Kind::Fill | Kind::Refill | Kind::Words | Kind::AlgWrap) && rng.chance(1, 2) {
         rng.below(6) as i64
     } else if kind == Kind::CustomFragments && rng.chance(1, 3) {
         rng.below(12) as i64
@@ -529,6 +543,7 @@ fn execute_ro(c: &Call, buf: &str, o: &Options<'static>) -> String {
             format!("ff[{}] of[{}]", shape(&ff), of)
         }
         Kind::CustomFragments => custom_fragments(c, buf),
+        Kind::AlgWrap => alg_wrap(c, buf, o),
         Kind::Wrap | Kind::FillInplace => unreachable!(),
     }
 }
